@@ -8,6 +8,8 @@ type scope struct {
 	outer           *scope
 	declarationList []ast.Declaration
 	labels          []string
+	iterationLabels []string // the labels (a subset of labels) that belong to an enclosing iteration statement
+	pendingLabels   int      // number of labels directly in front of the statement about to be parsed
 	allowIn         bool
 	inIteration     bool
 	inSwitch        bool
@@ -27,6 +29,20 @@ func (p *parser) closeScope() {
 
 func (p *scope) declare(declaration ast.Declaration) {
 	p.declarationList = append(p.declarationList, declaration)
+}
+
+// hasIterationLabel reports whether name labels an enclosing iteration statement (ES5 12.7:
+// the only labels "continue" may name); like hasLabel it does not cross a function boundary.
+func (p *scope) hasIterationLabel(name string) bool {
+	for _, label := range p.iterationLabels {
+		if label == name {
+			return true
+		}
+	}
+	if p.outer != nil && !p.inFunction {
+		return p.outer.hasIterationLabel(name)
+	}
+	return false
 }
 
 func (p *scope) hasLabel(name string) bool {
